@@ -1385,4 +1385,61 @@ theorem Acct.take {s s' : St} (h : Acct s) (hrun : s.drv = .running) {i : Nat} {
   · intro c ch hcc
     rw [hc] at hcc; rw [hlen]; exact a12 c ch hcc
 
+theorem mem_insert_iff {m : List (Nat × Nat)} {k v : Nat} {p : Nat × Nat} :
+    p ∈ insert m k v ↔ (p = (k, v) ∨ (p ∈ m ∧ p.1 ≠ k)) := by
+  constructor
+  · exact mem_insert
+  · intro h
+    unfold insert
+    simp only [List.mem_append, List.mem_singleton]
+    rcases h with h | ⟨h1, h2⟩
+    · exact Or.inr h
+    · exact Or.inl (mem_erase_iff.mpr ⟨h1, h2⟩)
+
+/-- facts about the request at the head of the queue -/
+theorem Acct.head {s : St} (h : Acct s) {i : Nat} {rest : List Nat} {o : Op}
+    (hq : s.opQ = i :: rest) (ho : s.ops[i]? = some o) :
+    o.phase = .queued ∧ o.mail = .empty ∧ (∀ p ∈ s.resultmap, p.2 ≠ i) ∧
+    (s.ops.set i { o with phase := .taken })[i]? = some { o with phase := .taken } ∧
+    (∀ j, j ≠ i → (s.ops.set i { o with phase := .taken })[j]? = s.ops[j]?) := by
+  have hoq : o.phase = .queued := by
+    obtain ⟨o2, ho2, hp⟩ := h.qPhase i (by rw [hq]; simp)
+    rw [ho] at ho2; cases ho2; exact hp
+  refine ⟨hoq, (h.fresh i o ho (by rw [hoq]; simp)).1, ?_, ?_, ?_⟩
+  · intro p hp e
+    obtain ⟨o2, ho2, _, hpt, _⟩ := h.rmOk p hp
+    rw [e, ho] at ho2; cases ho2; rw [hoq] at hpt; cases hpt
+  · rw [get_set _ _ ho, if_pos rfl]
+  · intro j hji; rw [get_set _ _ ho, if_neg hji]
+
+/-- dropping the reply sender registered under `x` while op `i` is being taken -/
+theorem Acct.dropReg {s : St} (h : Acct s) {i : Nat} {o : Op} (ops0 : List Op)
+    (h0 : ∀ j, j ≠ i → ops0[j]? = s.ops[j]?) (k : Int) (j : Nat) (hji : j ≠ i) (oj' : Op)
+    (hoj' : (dropSenderOpt ops0 (lookup s.resultmap k))[j]? = some oj') (hni : ∀ p ∈ s.resultmap, p.2 ≠ i) :
+    ∃ oj, s.ops[j]? = some oj ∧ oj'.id = oj.id ∧ oj'.kind = oj.kind ∧
+      oj'.chan = oj.chan ∧ oj'.res = oj.res ∧ oj'.phase = oj.phase ∧
+      (oj' = oj ∨ (oj.phase = .taken ∧ oj.mail = .empty ∧ oj'.mail = .dropped ∧
+        (∃ n : Nat, (n : Int) = k ∧ oj.id = n) ∧ ∀ p ∈ s.resultmap, p.2 = j → (p.1 : Int) = k)) := by
+  by_cases hx : lookup s.resultmap k = some j
+  · obtain ⟨n, hmem, hn⟩ := lookup_some hx
+    obtain ⟨oj, hoj, hid, hpt, hm, _⟩ := h.rmOk _ hmem
+    simp only at hoj hid
+    rw [hx] at hoj'
+    simp only [dropSenderOpt, dropSender_get, if_pos, h0 j hji, hoj, Option.map_some, hm, Option.some.injEq] at hoj'
+    refine ⟨oj, hoj, ?_⟩
+    rw [← hoj']
+    refine ⟨rfl, rfl, rfl, rfl, rfl, Or.inr ⟨hpt, hm, rfl, ⟨n, hn, hid⟩, ?_⟩⟩
+    intro p hp e
+    obtain ⟨o2, ho2, hid2, _⟩ := h.rmOk p hp
+    rw [e, hoj] at ho2; cases ho2
+    rw [← hid2, hid]; exact hn
+  · have hj : j < ops0.length := by
+      have := (List.getElem?_eq_some_iff.mp hoj').1
+      rw [dropSenderOpt_length] at this; exact this
+    have e1 : ops0[j]? = some ops0[j] := List.getElem?_eq_getElem hj
+    have := dropSenderOpt_put ops0 _ j ops0[j] e1 hx
+    rw [hoj'] at this; cases this
+    rw [h0 j hji] at e1
+    exact ⟨_, e1, rfl, rfl, rfl, rfl, rfl, Or.inl rfl⟩
+
 end Ldap3V.Conn
